@@ -100,7 +100,11 @@ sa_init(sockaddr_storage_p addr, const sa_family_t family,
 		return (EAFNOSUPPORT);
 	}
 
-	sa_addr_set(addr, sin_addr);
+	if (NULL != sin_addr) {
+		int error = sa_addr_set(addr, sin_addr);
+		if (0 != error)
+			return (error);
+	}
 	if (0 == port)
 		return (0);
 
@@ -205,8 +209,10 @@ sa_addr_set(sockaddr_storage_p addr, const void *sin_addr) {
 
 	switch (addr->ss_family) {
 	case AF_UNIX:
-		strlcpy(((sockaddr_un_p)addr)->sun_path, (const char*)sin_addr,
-		    sizeof(((sockaddr_un_p)addr)->sun_path));
+		if (sizeof(((sockaddr_un_p)addr)->sun_path) <=
+		    strlcpy(((sockaddr_un_p)addr)->sun_path, (const char*)sin_addr,
+		    sizeof(((sockaddr_un_p)addr)->sun_path)))
+			return (EINVAL); /* Path truncated. */
 		break;
 	case AF_INET:
 		memcpy(&((sockaddr_in_p)addr)->sin_addr, sin_addr,
@@ -402,17 +408,15 @@ sa_addr_from_str(sockaddr_storage_p addr,
 
 	/* AF_INET, AF_INET6 */
 	for (i = 0; i < nitems(family_list); i ++) {
-		sa_init(addr, family_list[i], NULL, 0);
+		if (0 != sa_init(addr, family_list[i], NULL, 0))
+			continue;
 		if (1 == inet_pton(family_list[i], straddr,
-		    sa_addr_get(addr))) {
-			sa_port_set(addr, 0);
-			return (0);
-		}
+		    sa_addr_get(addr)))
+			return (sa_port_set(addr, 0));
 	}
 	/* AF_UNIX */
 	if ('/' == straddr[0] || '.' == straddr[0]) {
-		sa_init(addr, AF_UNIX, straddr, 0);
-		return (0);
+		return (sa_init(addr, AF_UNIX, straddr, 0)); /* EINVAL: path too long. */
 	}
 	/* Fail: unknown address. */
 	return (EINVAL);
@@ -473,17 +477,15 @@ sa_addr_port_from_str(sockaddr_storage_p addr,
 
 	/* AF_INET, AF_INET6 */
 	for (i = 0; i < nitems(family_list); i ++) {
-		sa_init(addr, family_list[i], NULL, 0);
+		if (0 != sa_init(addr, family_list[i], NULL, 0))
+			continue;
 		if (1 == inet_pton(family_list[i], straddr,
-		    sa_addr_get(addr))) {
-			sa_port_set(addr, port);
-			return (0);
-		}
+		    sa_addr_get(addr)))
+			return (sa_port_set(addr, port));
 	}
 	/* AF_UNIX */
 	if ('/' == straddr[0] || '.' == straddr[0]) {
-		sa_init(addr, AF_UNIX, straddr, 0);
-		return (0);
+		return (sa_init(addr, AF_UNIX, straddr, 0)); /* EINVAL: path too long. */
 	}
 	/* Fail: unknown address. */
 	return (EINVAL);
@@ -503,8 +505,11 @@ sa_addr_to_str(const sockaddr_storage_t *addr, char *buf,
 		return (EAFNOSUPPORT);
 
 	switch (addr->ss_family) {
-	case AF_UNIX:
-		size_ret = strlcpy(buf, sin_addr, buf_size);
+	case AF_UNIX: /* sun_path may be not zero terminated. */
+		size_ret = strnlen((const char*)sin_addr,
+		    sizeof(((const sockaddr_un_t*)addr)->sun_path));
+		memcpy(buf, sin_addr, MIN(size_ret, (buf_size - 1)));
+		buf[MIN(size_ret, (buf_size - 1))] = 0;
 		break;
 	case AF_INET:
 	case AF_INET6:
